@@ -147,7 +147,7 @@ def lines_for(spec, rep, want=("geom", "pic", "scale", "layout", "size")):
                 by_id = {id(dd): s for dd, s in zip([it.data for it in tl.items], supplied)}
                 for nd, y in zip(tl.nodes, dots):
                     t = by_id[id(nd.data.data)]
-                    out.append(("tscale|%d|%d|0|%s|%d|%s|%d" % (d0, d1, fr(L), t, fr(y), t), "dot"))
+                    out.append(("tscale|%d|%d|0|%s|%s|%s|%s" % (d0, d1, fr(L), fr(t), fr(y), fr(t)), "dot"))
                 if g["ticks"] is not None:
                     tk = sc.ticks()
                     out.append(("tticks|%d|%d|10|%s" % (d0, d1, ",".join(str(TG.to_ms(t)) for t in tk)), "ticks"))
@@ -204,8 +204,21 @@ def body(pid, tier, seed, rep, only_prop=False, scale=1):
     n = common.count(tier, 600, 6000) * scale
     want = {"C07": ("geom", "scale", "layout", "size"), "C08": ("geom", "layout"), "C09": ("pic", "geom")}[pid]
     lines, metas = [], []
-    for _ in range(n):
+    for k in range(n):
         spec = TG.gen_spec(rng, tier)
+        if k % 4 == 3:
+            # crowded variant: a bounded layer width that forces several layers, thick and lopsided label padding, small layer gaps —
+            # where boxes of neighbouring layers and neighbouring labels come closest
+            o = spec["options"]
+            lab = o.setdefault("labella", {})
+            lab["maxPos"] = rng.choice([120, 180, 260, 360])
+            lab.pop("minPos", None)
+            if lab.get("algorithm") == "none":
+                lab["algorithm"] = rng.choice(["overlap", "simple"])
+            o["labelPadding"] = {"left": rng.choice([2, 0, 8, 1]), "right": rng.choice([2, 0, 8]), "top": rng.choice([3, 0, 9, 12]), "bottom": rng.choice([2, 0, 9])}
+            o["layerGap"] = rng.choice([1, 3, 6, 10, 25.5, 60])
+            o["direction"] = rng.choice(["up", "down", "left", "right"])
+            rep.count("crowded-variant")
         if pid == "C08":
             spec["options"].setdefault("labella", {})
             if spec["options"]["labella"].get("nodeSpacing", 3) < 3:
